@@ -151,7 +151,7 @@ def RKind.name : RKind → String
   | .uint32 => "uint32" | .uint64 => "uint64" | .uintptr => "uintptr" | .float32 => "float32"
   | .float64 => "float64" | .complex64 => "complex64" | .complex128 => "complex128" | .array => "array"
   | .chan => "chan" | .func => "func" | .interface => "interface" | .map => "map" | .pointer => "ptr"
-  | .slice => "slice" | .string => "string" | .struct => "struct" | .unsafePointer => "unsafe.Pointer"
+  | .slice => "slice" | .string => "string" | .struct => "struct" | .unsafePointer => "unsafeptr"
 
 def kindOfName (s : String) : Option RKind := allKinds.find? (fun k => RKind.name k == s)
 
